@@ -157,6 +157,8 @@ def eval_coeff(coeff, placeholders, point):
     re, im = v.as_real_imag()
     if not (re.is_Rational and im.is_Rational):
         re, im = sympy.nsimplify(re), sympy.nsimplify(im)
+    if not (re.is_Rational and im.is_Rational):
+        return None  # irrational value (e.g. sqrt(N+1) away from perfect squares): point not compared
     return Fr(int(re.p), int(re.q)), Fr(int(im.p), int(im.q))
 
 
@@ -339,3 +341,37 @@ def tree_ops(t, acc=None):
         if isinstance(x, list):
             tree_ops(x, acc)
     return acc
+
+
+def rand_powterm(rng):
+    """(modes, tree): an integer power 2..4 of a SINGLE-TERM form whose coefficient is a non-constant polynomial
+    in the number operator of a boson/ladder mode that also carries a non-zero power in the term
+    ((N_a a)^2, (a† N_a)^3, ((N_a+1) a^2)^2, (N_m m)^2, optionally times an operator of a second mode):
+    the powers of such a term add up but the coefficient does NOT simply exponentiate."""
+    modes = [rng.choice("BBL")]
+    if rng.random() < 0.45:
+        modes.append(rng.choice("BLSF"))
+    modes.sort(key=KIND_ORDER.index)
+    i = rng.choice([j for j, m in enumerate(modes) if m in "BL"])
+    op = ["op", i, rng.randint(0, 1)]
+    if rng.random() < 0.3:
+        op = ["pow", op, 2]
+    f = ["num", i] if rng.random() < 0.5 else ["add", ["num", i], rand_const(rng, complex_ok=False)]
+    if rng.random() < 0.25:
+        f = ["mul", f, ["add", ["num", i], rand_const(rng, complex_ok=False)]]
+    base = ["mul", f, op] if rng.random() < 0.5 else ["mul", op, f]
+    if len(modes) > 1 and rng.random() < 0.6:
+        j = 1 - i
+        o2 = ["op", j, rng.randint(0, 1)]
+        base = ["mul", base, o2] if rng.random() < 0.5 else ["mul", o2, base]
+    if rng.random() < 0.3:
+        base = ["mul", rand_const(rng), base]
+    return modes, ["pow", base, rng.choice([2, 2, 3, 4])]
+
+
+POWTERM_WITNESSES = [
+    (["B"], ["pow", ["mul", ["num", 0], ["op", 0, 0]], 2]),                                   # (N_a a)^2
+    (["B"], ["pow", ["mul", ["op", 0, 1], ["num", 0]], 3]),                                   # (a† N_a)^3
+    (["B"], ["pow", ["mul", ["add", ["num", 0], ["const", "1", "0"]], ["pow", ["op", 0, 0], 2]], 2]),  # ((N_a+1) a^2)^2
+    (["L"], ["pow", ["mul", ["num", 0], ["op", 0, 0]], 2]),                                   # (N_m m)^2
+]
